@@ -336,7 +336,11 @@ class C04(Check):
             try:
                 r, used = f(ctx, xs, case["simplify"], list(case["order"]))
             except Exception as e:
-                return {"err": C.classify_exc(e), "hints": hints}
+                out = {"err": C.classify_exc(e), "hints": hints}
+                # C14: an error leaves all operands usable (and unchanged)
+                if G.un_tl(tl) != G.un_tl(G.mk_tl(case["terms"])) or G.un_tl(ctx) != G.un_tl(G.mk_tl(case["ctx"])):
+                    out["damage"] = f"operand changed: terms {G.un_tl(tl)} context {G.un_tl(ctx)}"
+                return out
             return {"ok": G.un_tl(r), "tactics": [int(u[0]) for u in used], "hints": hints}
         finally:
             undo()
